@@ -1,8 +1,10 @@
 (* Extraction of the executable models.  ExtrOcamlBasic only (bool, option,
    unit, list, prod, sumbool, sumor mapped to OCaml's); no Extract Constant;
-   N / positive / nat stay the extracted inductive datatypes. *)
+   N / positive / nat / string / ascii stay the extracted inductive datatypes. *)
 From Coq Require Import Extraction ExtrOcamlBasic.
-From KV Require Import Base Chan Atomic.
+From KV Require Import Base Chan Atomic Mem Mutex Sig.
 From KV.proofs Require Import Inv.
 Set Extraction Output Directory ".".
-Extraction "kmodel.ml" astep init arun res_received invb.
+Extraction "kmodel.ml" astep init arun res_received invb
+  mstep minit access_safe mutex_ords_ok
+  sstep sinit safe final_of.
